@@ -14,6 +14,7 @@ EXPLANATION = (
     "dominated by responses >= min_peers_to_query and by the candidate-trust gate, the BFT call by is_attack_mode() true and the "
     "normal call by false; collusion and (BFT) region shortage only ever store false; (4) TABLE — default bft_threshold > 1/3 "
     "and derived threshold (2f+1)/(3f+1), default min_witness_trust 0.3, trust_weighted_threshold 0.7."
+    ' Region rules are name-free: the region count is the value published in CloseGroupValidationResult.confirming_regions; it is compared with min_regions in attack mode, counted over confirming responses only, and only over Some(region) values (no default label for witnesses without region information).'
 )
 NOT_DECIDED = "the exhaustive witness grid; numeric edge cases of the float ratio; that regions are counted over trusted witnesses only"
 ASSUMPTIONS = ["f64 division and comparison behave as IEEE-754 (NaN compares false, i.e. rejects)"]
